@@ -7,7 +7,7 @@
     download time: [OpenFile p], [HttpGet u] or [Reject k].  [run w st ops]
     gives the status and the events of every step of a history. *)
 From Coq Require Import List NArith.
-From AGH Require Import Base.Run Base.Bytes Base.PathClean Base.Glob Model.SafeFS Proofs.GlobCase Proofs.GlobClass Proofs.SafeFS Proofs.SafeFSClient.
+From AGH Require Import Base.Run Base.Bytes Base.PathClean Base.Glob Model.SafeFS Model.SafeFSConf Proofs.GlobCase Proofs.GlobClass Proofs.SafeFS Proofs.SafeFSClient Proofs.SafeFSConf.
 Import ListNotations.
 
 (** In every world, from every starting state (configured, planted or reached
@@ -276,3 +276,129 @@ Theorem C17_escape_pattern_exact : forall lit1 c lit2 name,
   glob_match (lit1 ++ c_bslash :: c :: lit2) name = GOk true -> name = lit1 ++ c :: lit2.
 Proof. exact escape_pattern_exact. Qed.
 Print Assumptions C17_escape_pattern_exact.
+
+(** * Round 5: where the pattern list comes from
+
+    The patterns travel from the configuration file to the filter through
+    package home's start-up ([load]: yaml decoding of
+    [filtering.safe_fs_patterns] over the default configuration object,
+    validateConfig, setupDNSFilteringConf, filtering.New) and back through
+    config.write ([write_shape]).  [configured y] is what the file lists under
+    the key: nothing for an absent key, a null, an empty sequence. *)
+
+(** The patterns in force are exactly the configured ones, and so is the slice
+    of the configuration object. *)
+Theorem C17_in_force_exactly_configured : forall wd dflt y g pats,
+  default_lists_none dflt -> load wd dflt y = StStarted g pats ->
+  pats = configured y /\ elems g = configured y.
+Proof. exact in_force_exactly_configured. Qed.
+Print Assumptions C17_in_force_exactly_configured.
+
+(** Every start-up is rejected by the decoder, rejected by New because a
+    listed pattern is malformed where the matcher looks, or runs with the
+    listed patterns; the file alone decides. *)
+Theorem C17_load_cases : forall wd dflt y,
+  default_lists_none dflt ->
+  (load wd dflt y = StRejectedParse /\ decode dflt y = None) \/
+  (exists g, load wd dflt y = StRejectedNew g /\ elems g = configured y /\
+             exists p, In p (configured y) /\ glob_match p probe_name = GBad) \/
+  (exists g, load wd dflt y = StStarted g (configured y) /\ elems g = configured y).
+Proof. exact load_cases. Qed.
+Print Assumptions C17_load_cases.
+
+(** No key, a null, an empty list: no pattern in force. *)
+Theorem C17_no_configured_patterns_none_in_force : forall wd dflt y g pats,
+  default_lists_none dflt -> configured y = [] ->
+  load wd dflt y = StStarted g pats -> pats = [].
+Proof. exact no_configured_patterns_none_in_force. Qed.
+Print Assumptions C17_no_configured_patterns_none_in_force.
+
+Theorem C17_absent_null_empty_start_without_patterns : forall wd dflt,
+  default_lists_none dflt ->
+  load wd dflt YAbsent = StStarted dflt [] /\
+  load wd dflt YNull = StStarted GNil [] /\
+  load wd dflt (YSeq []) = StStarted (GSlice []) [] /\
+  load wd dflt (YSeq [YINull]) = StStarted (GSlice []) [].
+Proof. exact absent_null_empty_start_without_patterns. Qed.
+Print Assumptions C17_absent_null_empty_start_without_patterns.
+
+(** A nil and an empty slice (and any two slices with the same elements) put
+    the same patterns in force. *)
+Theorem C17_nil_and_empty_alike : forall wd dflt y1 y2 g1 g2 p1 p2,
+  load wd dflt y1 = StStarted g1 p1 -> load wd dflt y2 = StStarted g2 p2 ->
+  elems g1 = elems g2 -> p1 = p2.
+Proof. exact nil_and_empty_alike. Qed.
+Print Assumptions C17_nil_and_empty_alike.
+
+(** The property's second clause from the file: a configuration file that
+    lists no pattern -> along every history no file is opened and the lists
+    never hold the content of a local file. *)
+Theorem C17_conf_no_patterns_no_local_content : forall wd dflt y w ops st f,
+  default_lists_none dflt -> configured y = [] -> world_of_file wd dflt y w ->
+  client_no_local w -> markers_nonzero w ->
+  (forall g, In g (entries st) -> ~ local_content w (f_loaded g)) ->
+  In f (entries (fst (run w st ops))) -> ~ local_content w (f_loaded f).
+Proof. exact conf_no_patterns_no_local_content. Qed.
+Print Assumptions C17_conf_no_patterns_no_local_content.
+
+Theorem C17_conf_no_patterns_no_file : forall wd dflt y w st ops s evs loc p,
+  default_lists_none dflt -> configured y = [] -> world_of_file wd dflt y w ->
+  In (s, evs) (snd (run w st ops)) -> ~ In (loc, OpenFile p) evs.
+Proof. exact conf_no_patterns_no_file. Qed.
+Print Assumptions C17_conf_no_patterns_no_file.
+
+(** The first clause from the file: the content of a local file is loaded
+    only if a pattern the file lists matches its path. *)
+Theorem C17_conf_loaded_file_is_safe : forall wd dflt y w ops st f p,
+  default_lists_none dflt -> world_of_file wd dflt y w ->
+  client_no_local w -> markers_nonzero w -> files_distinct w -> state_ok w st ->
+  In f (entries (fst (run w st ops))) -> lookup p (w_files w) = Some (f_loaded f) ->
+  safe (configured y) p.
+Proof. exact conf_loaded_file_is_safe. Qed.
+Print Assumptions C17_conf_loaded_file_is_safe.
+
+(** The loader accepts the empty string and relative patterns; those that are
+    empty or begin with a literal byte other than the separator (no classes,
+    no escapes) admit no path at all. *)
+Theorem C17_inert_patterns_open_nothing : forall pats loc p,
+  (forall g, In g pats -> admits_no_abs g) -> reader pats loc <> OpenFile p.
+Proof. exact inert_patterns_open_nothing. Qed.
+Print Assumptions C17_inert_patterns_open_nothing.
+
+(** A save and a restart: what config.write puts into the file is what was in
+    force, and reading that file puts the same patterns in force again. *)
+Theorem C17_roundtrip_patterns_unchanged : forall wd dflt dflt' y g pats,
+  load wd dflt y = StStarted g pats ->
+  load wd dflt' (write_shape g) = StStarted (GSlice (elems g)) pats /\
+  configured (write_shape g) = pats.
+Proof. exact roundtrip_patterns_unchanged. Qed.
+Print Assumptions C17_roundtrip_patterns_unchanged.
+
+Theorem C17_safe_across_restart : forall wd dflt dflt' y g w w2 ops1 ops2 st,
+  load wd dflt y = StStarted g (w_pats w) ->
+  world_of_file wd dflt' (write_shape g) w2 ->
+  w_files w2 = w_files w -> w_http w2 = w_http w ->
+  client_no_local w -> markers_nonzero w -> state_ok w st ->
+  state_ok w2 (fst (run w2 (restart_state (fst (run w st ops1))) ops2)).
+Proof. exact safe_across_restart. Qed.
+Print Assumptions C17_safe_across_restart.
+
+(** A loader that fills in the installation default for a file without the
+    list (red-team change C17-I) breaks the clause: a null key, one enabled
+    list under <workDir>/userfilters/ in the file, one refresh. *)
+Theorem C17_default_filling_loader_refuted :
+  exists wd y w st ops f,
+    configured y = [] /\
+    (exists g, load_filling wd GNil y = StStarted g (w_pats w)) /\
+    client_no_local w /\ markers_nonzero w /\
+    (forall g, In g (entries st) -> ~ local_content w (f_loaded g)) /\
+    In f (entries (fst (run w st ops))) /\ local_content w (f_loaded f).
+Proof. exact default_filling_loader_refuted. Qed.
+Print Assumptions C17_default_filling_loader_refuted.
+
+(** ... and only there: with any explicit list, the empty one included (what
+    the server itself writes), the filling loader is the loader. *)
+Theorem C17_filling_differs_only_without_list : forall wd dflt y items,
+  y = YSeq items -> load_filling wd dflt y = load wd dflt y.
+Proof. exact filling_differs_only_without_list. Qed.
+Print Assumptions C17_filling_differs_only_without_list.
